@@ -39,7 +39,7 @@ PosNames == {"not", "andL", "andR", "orL", "orR", "subL", "subR", "mulL", "mulR"
              "elemInt", "elemStr", "elemBool", "argInt", "argStr", "arg2", "argSlice",
              "defInt", "defStr", "defBool", "defSliceInt", "defError", "defShort", "defVarUntyped", "asgInt", "asgStr", "asgBool", "asgSlice",
              "cmpPlusInt", "cmpPlusStr", "cmpMinus", "cmpMul", "len", "itoa", "exists", "read", "input", "writePath", "writeData", "writeAppend", "copySrc", "print", "range",
-             "def2", "def3", "asg2", "exprStmt", "groupInt", "nestedArith", "nestedLogic"}
+             "def2", "def3", "asg2", "def2Old", "def2OldL", "def2OldCall", "def2OldCallL", "exprStmt", "groupInt", "nestedArith", "nestedLogic"}
 FuncPosNames == {"retTop", "retIf", "retElse", "retFor", "retSwitch", "ret2nd", "retVoid", "retStr", "retInNestedIfFor"}
 
 Pos(p, h) ==
@@ -101,6 +101,11 @@ Pos(p, h) ==
     [] p = "print" -> <<PrintS(<<I("1"), h>>)>>
     [] p = "range" -> <<RangeS("k", "", h, <<Print1(Var("k"))>>)>>
     [] p = "def2" -> <<Def(<<"p", "q">>, <<h>>)>>
+    \* a short definition that re-uses a name of the same block: the old name keeps its type
+    [] p = "def2Old" -> <<Def(<<"q9", "xs">>, <<I("1"), h>>)>>
+    [] p = "def2OldL" -> <<Def(<<"xi", "q9">>, <<h, StrL("n")>>)>>
+    [] p = "def2OldCall" -> <<Def(<<"q9", "xs">>, <<h>>)>>
+    [] p = "def2OldCallL" -> <<Def(<<"xi", "q9">>, <<h>>)>>
     [] p = "def3" -> <<Def(<<"p", "q", "z">>, <<h>>)>>
     [] p = "asg2" -> <<Def1("p", I("0")), Def1("q", I("0")), Asg(<<"p", "q">>, <<h>>)>>
     [] p = "exprStmt" -> <<ExprS(h)>>
@@ -183,6 +188,45 @@ Shown(ss) == IF DefinesR(ss) THEN ss \o <<PrintS(<<StrL("r ="), Var("r")>>)>> EL
 RunCases == {CaseOf("C06/run/" \o p \o "/" \o o[1] \o "." \o o[2] \o "/" \o c, Prelude \o Wrap(c, Shown(Pos(p, o[3]))) \o <<PrintS(<<StrL("end"), Var("xi"), Var("xb"), Var("xs"), LenE(Var("si")), LenE(Var("ss"))>>)>>)
              : p \in PosNames, o \in OffersAll, c \in {"top", "func"}}
 ASSUME ndJsonSerialize("famrun.ndjson", SetToSeq(RunCases))
-All == PosCases \cup RetCases \cup ArityCases \cup VListCases
+\* the type written `error` is the string type under another spelling: every position that takes or delivers a value of a type written
+\* `error` x every offered expression (plus values whose own type was written `error`), in every context
+EPrelude == Prelude \o
+  <<VarDef(<<"xe">>, "error", <<>>), VarDef(<<"se">>, "[]error", <<>>),
+    Func("fe", <<>>, <<"error">>, <<RetS(<<StrL("bad")>>)>>),
+    Func("fie", <<>>, <<"int", "error">>, <<RetS(<<I("1"), Nil>>)>>),
+    Func("te", <<Param("e", "error")>>, <<"error">>, <<RetS(<<Var("e")>>)>>)>>
+EOffers == Offers \cup {<<"string", "evar", Var("xe")>>, <<"string", "ecall", CallE("fe", <<>>)>>, <<"string", "ecall1", CallE("te", <<Var("xs")>>)>>,
+                        <<"slicestring", "evar", Var("se")>>, <<"multi", "ecall", CallE("fie", <<>>)>>, <<"string", "eidx", IndexE(Var("se"), I("0"))>>}
+EPosNames == {"asgErr", "asgStrE", "cmpPlusErr", "cmpPlusStrE", "argErr", "argStrE", "asg2Err", "asg2StrE", "def2E", "elemErr", "elemStrE", "setIdxErr", "setIdxStrE",
+              "asgSliceErr", "asgSliceStrE", "eqErrL", "eqErrR", "eqNil", "defErrE", "defStrE", "defSliceErr", "caseErr", "addErr", "copyErr", "rangeErr", "lenErr", "printErr"}
+EPos(p, h) ==
+  CASE p = "asgErr" -> <<Asg1("xe", h)>> [] p = "asgStrE" -> <<Asg1("xs", h)>>
+    [] p = "cmpPlusErr" -> <<Compound("xe", "+", h)>> [] p = "cmpPlusStrE" -> <<Compound("xs", "+", h)>>
+    [] p = "argErr" -> <<Def1("r", CallE("te", <<h>>))>> [] p = "argStrE" -> <<Def1("r", CallE("fs", <<h>>))>>
+    [] p = "asg2Err" -> <<Asg(<<"xi", "xe">>, <<h>>)>> [] p = "asg2StrE" -> <<Asg(<<"xi", "xs">>, <<h>>)>>
+    [] p = "def2E" -> <<Def(<<"xi2", "xe">>, <<h>>)>>
+    [] p = "elemErr" -> <<Def1("r", SliceLit("error", <<h, Var("xe")>>))>> [] p = "elemStrE" -> <<Def1("r", SliceLit("string", <<Var("xe"), h>>))>>
+    [] p = "setIdxErr" -> <<SetIdx("se", I("0"), h)>> [] p = "setIdxStrE" -> <<SetIdx("ss", I("0"), h)>>
+    [] p = "asgSliceErr" -> <<Asg1("se", h)>> [] p = "asgSliceStrE" -> <<Asg1("ss", h)>>
+    [] p = "eqErrL" -> <<Def1("r", CmpE("==", h, Var("xe")))>> [] p = "eqErrR" -> <<Def1("r", CmpE("!=", Var("xe"), h))>>
+    [] p = "eqNil" -> <<Def1("r", CmpE("!=", h, Nil))>>
+    [] p = "defErrE" -> <<VarDef(<<"n">>, "error", <<h>>)>> [] p = "defStrE" -> <<VarDef(<<"n">>, "string", <<h>>)>>
+    [] p = "defSliceErr" -> <<VarDef(<<"n">>, "[]error", <<h>>)>>
+    [] p = "caseErr" -> <<Switch(Var("xe"), <<CaseB(h, <<Print1(I("2"))>>)>>, <<Print1(I("3"))>>, TRUE)>>
+    [] p = "addErr" -> <<Def1("r", Bin("+", Var("xe"), h))>>
+    [] p = "copyErr" -> <<Def1("r", CopyE("se", h))>>
+    [] p = "rangeErr" -> <<RangeS("k", "el", h, <<Asg1("xe", Var("el"))>>)>>
+    [] p = "lenErr" -> <<Def1("r", LenE(h))>>
+    [] p = "printErr" -> <<PrintS(<<Var("xe"), h>>)>>
+EFuncPosNames == {"retErr", "retErr2nd", "retStrE", "retSliceErr"}
+EFuncPos(p, h) ==
+  CASE p = "retErr" -> <<Func("g", <<>>, <<"error">>, <<RetS(<<h>>)>>)>>
+    [] p = "retErr2nd" -> <<Func("g", <<>>, <<"int", "error">>, <<RetS(<<I("1"), h>>)>>)>>
+    [] p = "retStrE" -> <<Func("g", <<>>, <<"string">>, <<RetS(<<h>>)>>)>>
+    [] p = "retSliceErr" -> <<Func("g", <<>>, <<"[]error">>, <<RetS(<<h>>)>>)>>
+ErrCases == {CaseOf("C06/err/" \o p \o "/" \o o[1] \o "." \o o[2] \o "/" \o c, EPrelude \o Wrap(c, EPos(p, o[3]))) : p \in EPosNames, o \in EOffers, c \in Contexts}
+            \cup {CaseOf("C06/errret/" \o p \o "/" \o o[1] \o "." \o o[2], EPrelude \o EFuncPos(p, o[3]) \o <<ExprS(CallE("g", <<>>))>>) : p \in EFuncPosNames, o \in EOffers}
+
+All == ErrCases \cup PosCases \cup RetCases \cup ArityCases \cup VListCases
 ASSUME ndJsonSerialize("fam.ndjson", SetToSeq(All))
 =============================================================================
